@@ -52,9 +52,10 @@ var leafTypes = []reflect.Type{
 }
 
 type target struct {
-	path  []string // path of the aliased field from the root
-	inner []string // for a struct-typed aliased field: path of the chosen leaf below it
-	leaf  reflect.Type
+	path    []string // path of the aliased field from the root
+	inner   []string // for a struct-typed aliased field: path of the chosen leaf below it
+	leaf    reflect.Type
+	innerAl bool // that leaf carries an alias of its own (outer alias + inner alias is a fourth name)
 }
 
 type gen struct {
@@ -65,6 +66,7 @@ type gen struct {
 	targets []target
 	leaves  [][]string // paths of all leaves (for the independent fields)
 	leafT   []reflect.Type
+	leafAl  []bool // the leaf lies below an aliased struct and has an alias tag itself
 	ez      ezType // src 4: the static type and its ez entry point
 	ezo     ezOpts
 }
@@ -131,7 +133,7 @@ func (g *gen) strct(depth int, path []string, underAlias bool, collect bool) ref
 			if aliased && len(g.leaves) > mark && collect {
 				sf.Tag = reflect.StructTag(g.aliasTags(name, false))
 				k := mark + r.Intn(len(g.leaves)-mark)
-				g.targets = append(g.targets, target{path: p, inner: g.leaves[k][len(p):], leaf: g.leafT[k]})
+				g.targets = append(g.targets, target{path: p, inner: g.leaves[k][len(p):], leaf: g.leafT[k], innerAl: g.leafAl[k]})
 			} else if r.Chance(1, 5) {
 				sf.Tag = reflect.StructTag(fmt.Sprintf(`dials:"s_%s"`, strings.ToLower(name)))
 			}
@@ -147,11 +149,28 @@ func (g *gen) strct(depth int, path []string, underAlias bool, collect bool) ref
 		default:
 			lt := leafTypes[r.Intn(len(leafTypes))]
 			sf := reflect.StructField{Name: name, Type: lt}
+			innerAl := false
 			if !underAlias && r.Chance(1, 2) {
 				sf.Tag = reflect.StructTag(g.aliasTags(name, true))
 				if collect {
 					g.targets = append(g.targets, target{path: p, leaf: lt})
 				}
+			} else if underAlias && r.Chance(1, 3) {
+				// an aliased leaf BELOW an aliased struct (general alias only: a
+				// source-specific name would be the same in both copies of the struct)
+				sf.Tag = reflect.StructTag(g.aliasTags(name, false))
+				innerAl = true
+			} else if !underAlias && r.Chance(1, 6) {
+				// an alias tag that belongs to ANOTHER source: no alias here, the
+				// field is an ordinary one for this source
+				var foreign []string
+				for _, f := range []string{"dialsenv", "dialsflag", "dialspflag"} {
+					if len(families[g.src]) < 2 || families[g.src][1] != f {
+						foreign = append(foreign, f)
+					}
+				}
+				f := foreign[r.Intn(len(foreign))]
+				sf.Tag = reflect.StructTag(fmt.Sprintf(`%salias:"OLDX_%s"`, f, strings.ToUpper(name)))
 			} else if r.Chance(1, 5) {
 				sf.Tag = reflect.StructTag(fmt.Sprintf(`dials:"l_%s"`, strings.ToLower(name)))
 			}
@@ -168,6 +187,7 @@ func (g *gen) strct(depth int, path []string, underAlias bool, collect bool) ref
 			fields = append(fields, sf)
 			g.leaves = append(g.leaves, p)
 			g.leafT = append(g.leafT, lt)
+			g.leafAl = append(g.leafAl, innerAl)
 		}
 	}
 	return reflect.StructOf(fields)
@@ -241,6 +261,16 @@ func withAlias(t target, alias bool) []string {
 	return append(p, t.inner...)
 }
 
+// slotPath: the name a value is supplied under; for a leaf with its own alias
+// below the aliased struct, half of the time the leaf's alias name
+func slotPath(r *coqfmt.Rng, t target, alias bool) []string {
+	p := withAlias(t, alias)
+	if t.innerAl && r.Chance(1, 2) {
+		p[len(p)-1] += aliasSuffix
+	}
+	return p
+}
+
 // leafAt walks v (original type, possibly through nil pointers) along path.
 func leafAt(v reflect.Value, path []string) (reflect.Value, bool) {
 	for _, n := range path {
@@ -293,9 +323,11 @@ func genLeafFor(r *coqfmt.Rng, tg target) (reflect.Value, string) {
 }
 
 type slot struct {
-	path []string // path in the translated structure (alias suffix applied)
-	val  reflect.Value
-	text string
+	path  []string // path in the translated structure (alias suffix applied)
+	val   reflect.Value
+	text  string
+	tgt   int  // index of the target this value is for (-1: an independent leaf)
+	alias bool // supplied under the target's alias name
 }
 
 func safeValue(f func() (reflect.Value, error)) (o xf.Out) {
@@ -343,16 +375,16 @@ func run(raw json.RawMessage) driver.Result {
 	var slots []slot
 	both := []string{}
 	pat := in.Pat
-	for _, tg := range g.targets {
+	for ti, tg := range g.targets {
 		d := pat % 4
 		pat /= 4
 		if d&1 != 0 {
 			v, s := genLeafFor(r, tg)
-			slots = append(slots, slot{withAlias(tg, false), v, s})
+			slots = append(slots, slot{slotPath(r, tg, false), v, s, ti, false})
 		}
 		if d&2 != 0 {
 			v, s := genLeafFor(r, tg)
-			slots = append(slots, slot{withAlias(tg, true), v, s})
+			slots = append(slots, slot{slotPath(r, tg, true), v, s, ti, true})
 		}
 		if d == 3 {
 			both = append(both, tg.path[len(tg.path)-1])
@@ -368,7 +400,7 @@ func run(raw json.RawMessage) driver.Result {
 		}
 		if !under && !inElem(lp) && r.Chance(1, 3) {
 			v, s := genLeaf(r, g.leafT[i])
-			slots = append(slots, slot{lp, v, s})
+			slots = append(slots, slot{lp, v, s, -1, false})
 		}
 	}
 
@@ -596,13 +628,13 @@ func run(raw json.RawMessage) driver.Result {
 		direct = append(direct, "unexpected error: "+errText)
 	default:
 		p := in.Pat
-		for _, tg := range g.targets {
+		for ti, tg := range g.targets {
 			d := p % 4
 			p /= 4
 			leaf, set := leafAt(res.V, append(append([]string{}, tg.path...), tg.inner...))
 			var want *slot
 			for i := range slots {
-				if strings.Join(slots[i].path, ",") == strings.Join(withAlias(tg, d == 2), ",") {
+				if slots[i].tgt == ti && slots[i].alias == (d == 2) {
 					want = &slots[i]
 				}
 			}
@@ -715,7 +747,7 @@ func gen_(r *coqfmt.Rng, n int, tier string) []json.RawMessage {
 func main() {
 	driver.Main(driver.Engine{
 		Prop: "C14", CoqImport: "Dials.Check.C14Check", CoqRun: "run_cases",
-		Rule: "random config types (scalar leaves of 11 kinds incl. durations and named scalars, nested value/pointer structs to depth 3, embedded structs) with dialsalias tags; every supplied value is the Go zero value of its type (false, 0, \"\", 0s) with probability 1/3 (every non-empty subset of {dialsalias, dialsenvalias / dialsflagalias / dialspflagalias} on leaves - incl. ONLY the source-specific alias - each of dials and the source-specific primary tag present or not, dialsdesc; for the pflag source one leaf in three, aliased or not, carries a one-letter dialspflagshort) on random leaf and struct-typed fields at any depth; up to 3 aliased targets per type, ALL 4^k neither/primary/alias/both patterns; other leaves set independently with probability 1/3; each type through one of: env source (with and without prefix), std flag source, pflag source, JSON decoder wrapped with ez's alias/reformat/set-slice manglers, or (four static config types with aliases on leaves, struct-typed, pointer and embedded fields) a JSON config FILE read through the real ez.JSONConfigEnvFlag with Params drawn from DisableAutoSetToSlice x FileFieldNameEncoder in {nil, nil, lower_snake, kebab}, its view compared with the alias-wrapped decoder's result; non-trivial: at least one target and a pattern other than all-neither; distinct = distinct (type state, source, pattern)",
+		Rule: "random config types (scalar leaves of 11 kinds incl. durations and named scalars, nested value/pointer structs to depth 3, embedded structs) with dialsalias tags; every supplied value is the Go zero value of its type (false, 0, \"\", 0s) with probability 1/3 (every non-empty subset of {dialsalias, dialsenvalias / dialsflagalias / dialspflagalias} on leaves - incl. ONLY the source-specific alias - each of dials and the source-specific primary tag present or not, dialsdesc; for the pflag source one leaf in three, aliased or not, carries a one-letter dialspflagshort) on random leaf and struct-typed fields at any depth, a leaf below an aliased struct may carry an alias of its own (then outer alias + inner alias is a fourth name, used half of the time), one plain leaf in six carries an alias tag of ANOTHER source only; up to 3 aliased targets per type, ALL 4^k neither/primary/alias/both patterns; other leaves set independently with probability 1/3; each type through one of: env source (with and without prefix), std flag source, pflag source, JSON decoder wrapped with ez's alias/reformat/set-slice manglers, or (four static config types with aliases on leaves, struct-typed, pointer and embedded fields) a JSON config FILE read through the real ez.JSONConfigEnvFlag with Params drawn from DisableAutoSetToSlice x FileFieldNameEncoder in {nil, nil, lower_snake, kebab}, its view compared with the alias-wrapped decoder's result; non-trivial: at least one target and a pattern other than all-neither; distinct = distinct (type state, source, pattern)",
 		Gen:  gen_, Run: run,
 	})
 }
